@@ -262,9 +262,21 @@ def as_array(t):
     (a universally quantified fact, instantiated like the others).  A lambda term is deliberately not used:
     symbols created while evaluating the tensor at the lambda's bound index would have to depend on it."""
     c = ctx()
+    fz = t.frozen()
+    # two tensors with the same contents (same element term at a canonical index) share the array constant
+    K = z3.Int("K_arr")
+    c._instantiating = True
+    c.bound_stack.append(K)
+    try:
+        key = ("as_array", z3.simplify(S.to_real(S.z(fz.at(Sym(K))))).sexpr(), str(t.shape[0]))
+    finally:
+        c.bound_stack.pop()
+        c._instantiating = False
+    if key in c.uf_cache:
+        return c.uf_cache[key]
     name = str(c.fresh("pt", "Int")) + "_a"
     arr = z3.Const(name, ARR)
-    fz = t.frozen()
+    c.uf_cache[key] = arr
     n = t.shape[0]
     c.add_forall((n,), lambda j: arr[S.z(j)] == S.to_real(S.z(fz.at(j))), f"{name}-contents")
     return arr
